@@ -1,7 +1,8 @@
 #![cfg(kani)]
 // Child module of src/portfolio/model/affiliate.rs (cfg(kani) only): builds
 // Affiliate values with the real private constructor, and the table that
-// replaces the regex normalisation of Affiliate::from_strep in the solver.
+// replaces the regex normalisation + global dedup table of
+// Affiliate::from_strep in the solver.
 use super::*;
 
 pub static mut LONG_IDS: bool = false;
@@ -10,25 +11,46 @@ pub fn mk(id: &str, name: &str, registered: bool) -> Affiliate {
     Affiliate::new(AffiliateData { id: id.to_string(), name: name.to_string(), registered })
 }
 
+// One Arc per affiliate id, like the real AffiliateDedupTable: equal
+// affiliates are then pointer-equal and `Arc<T: Eq>::eq` never reaches the
+// string comparison (1166 memcmp unwindings in a 3-row window harness before
+// this). Ids have pairwise different lengths, so different affiliates are
+// told apart by the length check of `String ==`.
+static mut T_DEFAULT: Option<Affiliate> = None;
+static mut T_B: Option<Affiliate> = None;
+static mut T_REG: Option<Affiliate> = None;
+static mut T_BREG: Option<Affiliate> = None;
+static mut T_GLOBAL: Option<Affiliate> = None;
+
+fn interned(slot: &mut Option<Affiliate>, id: &str, name: &str, registered: bool) -> Affiliate {
+    if slot.is_none() {
+        *slot = Some(mk(id, name, registered));
+    }
+    slot.as_ref().unwrap().clone()
+}
+
 /// Stub for `Affiliate::from_strep`: the spellings the harnesses use.
-/// 1-character ids by default (every String == is a memcmp loop the unwind
-/// bound must cover); the real ids when LONG_IDS is set.
+/// Short ids by default (every String == is a memcmp loop the unwind bound
+/// must cover); the real ids of the default affiliates when LONG_IDS is set
+/// (`is_default()` looks at the id). `__global__` always keeps its real id.
+#[allow(static_mut_refs)]
 pub fn from_strep_stub(s: &str) -> Affiliate {
     let long = unsafe { LONG_IDS };
-    match s {
-        "" | "Default" | "default" => {
-            if long { mk("default", "Default", false) } else { mk("d", "D", false) }
-        }
-        "B" | "b" => mk("b", "B", false),
-        "(R)" | "Default (R)" | "default (R)" => {
-            if long { mk("default (R)", "Default (R)", true) } else { mk("r", "R", true) }
-        }
-        "B (R)" | "b (R)" => mk("s", "S", true),
-        // the global pseudo-affiliate keeps its real id: is_global() compares with it
-        GLOBAL_AF_ID => mk(GLOBAL_AF_ID, "G", false),
-        _ => {
-            kani::assume(false);
-            unreachable!()
+    unsafe {
+        match s {
+            "" | "Default" | "default" => {
+                if long { interned(&mut T_DEFAULT, "default", "Default", false) } else { interned(&mut T_DEFAULT, "d", "D", false) }
+            }
+            "B" | "b" => interned(&mut T_B, "bb", "B", false),
+            "(R)" | "Default (R)" | "default (R)" => {
+                if long { interned(&mut T_REG, "default (R)", "Default (R)", true) } else { interned(&mut T_REG, "rrr", "R", true) }
+            }
+            "B (R)" | "b (R)" => interned(&mut T_BREG, "ssss", "S", true),
+            GLOBAL_AF_ID => interned(&mut T_GLOBAL, GLOBAL_AF_ID, "G", false),
+            _ => {
+                kani::assume(false);
+                unreachable!()
+            }
         }
     }
 }
